@@ -516,7 +516,56 @@ def triple_fma_pow10z(rng):
     return fin(s1, c1, e1), fin(s1 ^ sp, c2, max(QMIN, min(QMAX, e2))), fin(s3, c3, e3)
 
 
+def triple_fma_cancel_pow10(rng):
+    """Cases (2)/(4) of the fma alignment, opposite signs, 2 <= delta <= 33: z scaled to 34 digits is 10^33 + A where A is the head of the
+    product and the product's discarded tail is a small positive fraction (< 0.05): the exact sum is just below a power of ten, the first
+    rounding pass gives 10^33, the repeat pass with one more digit gives exactly 10^34 (found by a mutation scan: bid128_fma.rs 'e3 += 1'
+    after the repeat was not exercised)"""
+    for _ in range(60):
+        delta = rng.randint(2, 33); na = 34 - delta; x0 = rng.randint(2, 30); q4 = na + x0
+        if q4 > 68: continue
+        q1 = rng.randint(max(1, q4 - 34), min(34, q4)); c1 = coeff(rng, q1)
+        A = rng.randint(10 ** (na - 1), 10 ** na - 1)
+        target = A * 10 ** x0 + rng.randint(1, max(1, 10 ** x0 // 20 - 1))
+        c2 = target // c1
+        if c2 == 0 or c2 >= T34: continue
+        c4 = c1 * c2
+        if ndig(c4) != q4: continue
+        A = c4 // 10 ** x0; r = c4 % 10 ** x0
+        if not (0 < r < 10 ** x0 // 20) or ndig(A) != na: continue
+        q3 = rng.randint(1, 34); v = 10 ** 33 + A; sc = 34 - q3
+        if v % 10 ** sc: continue
+        c3 = v // 10 ** sc
+        e4 = rng.randint(-200, 200); e3 = delta + q4 + e4 - q3
+        e1 = e4 // 2; e2 = e4 - e1
+        sx, sy = rng.randint(0, 1), rng.randint(0, 1)
+        return fin(sx, c1, e1), fin(sy, c2, e2), fin(sx ^ sy ^ 1, c3, e3)
+    return triple_fma_pow10z(rng)
+
+
+def triple_fma_subnormal_carry(rng):
+    """the exact sum, in units of 10^-6176, is 10^k - f with 0 < f <= 1/2 and at least one digit below the smallest exponent: the second
+    (subnormal) rounding of bid_add_and_round carries into a new decade (found by a mutation scan: the rescaling after that carry,
+    bid128_fma.rs '64 x 128 -> 128', was not exercised); also with the fraction just above 1/2 and as exact ties"""
+    for _ in range(60):
+        k = rng.randint(1, 20); x0 = rng.randint(1, 10); j = rng.randint(0, 3); g = rng.randint(1, 6)
+        Fi = rng.choice([rng.randint(1, 5 * 10 ** (x0 - 1)), 5 * 10 ** (x0 - 1), 5 * 10 ** (x0 - 1) + 1, 1])
+        S = 10 ** (k + x0) - Fi
+        q3 = k + g - j
+        if q3 < 1 or q3 > 34: continue
+        c3 = rng.randint(10 ** (q3 - 1), 10 ** q3 - 1); Z = c3 * 10 ** (x0 + j)
+        P = Z + S
+        if ndig(P) != ndig(Z) or ndig(P) > 34: continue
+        sx, sy = rng.randint(0, 1), rng.randint(0, 1); a = rng.randint(0, 20)
+        m = rng.choice([1, 1, 2, 4, 5]) if P % 5 == 0 or True else 1
+        if P % m: m = 1
+        return fin(sx, P // m, -x0 - a), fin(sy, m, QMIN + a), fin(sx ^ sy ^ 1, c3, QMIN + j)
+    return triple_fma_pow10z(rng)
+
+
 def triple_fma(rng):
+    if rng.random() < 0.05: return triple_fma_cancel_pow10(rng)
+    if rng.random() < 0.05: return triple_fma_subnormal_carry(rng)
     if rng.random() < 0.06:
         x, y = pair_mul_wordpattern(rng)
         return x, y, rng.choice([fin(rng.randint(0, 1), 0, expo(rng)), finite(rng, e=rng.randint(-80, 80)), fin(rng.randint(0, 1), coeff(rng), rng.randint(-40, 40))])
